@@ -129,6 +129,7 @@ def step (s : DState) (toks : List String) : DState × String :=
       else
         let x := Impl.clearAll s.impl ⟨t, t, t, t⟩
         ({ s with impl := x, lastClear := t }, s!"ok {showImpl x}")
+  | ["unresolved"] => (s, "timing-unresolved")
   | ["flush"] =>
     let x := Impl.flush s.impl
     ({ s with impl := x }, s!"ok {showImpl x}")
@@ -142,11 +143,16 @@ def step (s : DState) (toks : List String) : DState × String :=
   -- cache equals generation from scratch, for every pair of proxies
   | ["case", _, _, _] => (s, "ok")
   | ["pair", _, _] => (s, "eq")
+  | ["seq", _] => (s, "eq")
   -- stream `writers`: the spec side of the writer discipline (theorem `never_stale`): after any sequence of
   -- real request / push / config-dump writers and accepted changes, a reader with the current snapshot gets
   -- from the shared cache what generation from scratch yields
   | ["case", _, _] => (s, "ok")
   | ["connect", _, _] => (s, "ok")
+  | ["connect", _, _, _] => (s, "ok")
+  | ["toggle", _] => (s, "ok")
+  | ["epupdate", _, _] => (s, "ok")
+  | ["dumptypes", _] => (s, "ok")
   | ["request", _, _] => (s, "ok")
   | ["change", _, _] => (s, "ok")
   | ["push", _] => (s, "ok")
